@@ -282,9 +282,15 @@ func (ls *List) Filter(ctx context.Context, fn Object) Object {
 	var result []Object
 	for _, value := range ls.items {
 		filterArgs[0] = value
-		decision, err := callFunc(ctx, fn.(*Function), filterArgs)
-		if err != nil {
-			return Errorf(err.Error())
+		var decision Object
+		if builtin, ok := fn.(*Builtin); ok {
+			decision = builtin.fn(ctx, value)
+		} else {
+			var err error
+			decision, err = callFunc(ctx, fn.(*Function), filterArgs)
+			if err != nil {
+				return Errorf(err.Error())
+			}
 		}
 		if IsError(decision) {
 			return decision
@@ -310,9 +316,15 @@ func (ls *List) Each(ctx context.Context, fn Object) Object {
 	eachArgs := make([]Object, 1)
 	for _, value := range ls.items {
 		eachArgs[0] = value
-		result, err := callFunc(ctx, fn.(*Function), eachArgs)
-		if err != nil {
-			return Errorf(err.Error())
+		var result Object
+		if builtin, ok := fn.(*Builtin); ok {
+			result = builtin.fn(ctx, value)
+		} else {
+			var err error
+			result, err = callFunc(ctx, fn.(*Function), eachArgs)
+			if err != nil {
+				return Errorf(err.Error())
+			}
 		}
 		if IsError(result) {
 			return result
